@@ -258,42 +258,7 @@ def r4(ctx):
             ctx.check(P, rule, "header is written at the slot chosen by the rotation", term_has_call(o, NEXT_SLOT) is not None, "offset = discriminant of the slot from get_next_header_oplog_slot_and_bit_value", "header offset is %s" % term_str(o)[:100])
 
 
-def r5(ctx, prop=P, rule="C06.R5"):
-    page = const_lookup(ctx, "bitfield::fixed::FIXED_BITFIELD_BYTES_LENGTH")
-    ff, fo, fd, ft = ctx.fn(BF_FLUSH), ctx.fn(BF_OPEN), ctx.fn(FB_FROM_DATA), ctx.fn(FB_TO_BYTES)
-    if not all(need(ctx, prop, rule, n, f) for n, f in ((BF_FLUSH, ff), (BF_OPEN, fo), (FB_FROM_DATA, fd), (FB_TO_BYTES, ft))):
-        return
-    ctx.check(prop, rule, "a bitfield page is 4096 bytes", page == 4096, "FIXED_BITFIELD_BYTES_LENGTH = 4096", "FIXED_BITFIELD_BYTES_LENGTH = %s" % page)
-    # writer: to_bytes builds a [u8; page] ; offset = id * len(to_bytes())
-    arr = [l for l in ft.body.locals if l["ty"] == "[u8; %s]" % page]
-    ctx.check(prop, rule, "writer: to_bytes serialises a whole page", bool(arr), "[u8; 4096] buffer", "to_bytes does not build a [u8; %s] buffer" % page)
-    nc = sites(ff, SI_CONTENT)
-    good = False
-    if nc:
-        o = unwrap_ovf(ff.arg_origin(nc[0], 1))
-        good = o[0] == "bin" and o[1] == "Mul" and term_has_call(o, FB_TO_BYTES) is not None and any(isinstance(x, tuple) and x[0] == "len" for x in subterms(o))
-    ctx.check(prop, rule, "writer: page offset = page id x page byte length", good, "unflushed_id * to_bytes().len()", "flush offset is %s" % (term_str(ff.arg_origin(nc[0], 1))[:120] if nc else None))
-    # reader: stride and divisor
-    # name-free: the byte offset handed to FixedBitfield::from_data is an arithmetic progression
-    # (a counter `+= S` or `(0..len).step_by(S)`); the page id under which the page is stored is that
-    # offset divided by D
-    strides, divisors = [], []
-    fds = sites(fo, FB_FROM_DATA)
-    off = fo.arg_origin(fds[0], 0) if fds else None
-    st_ = stride_of(off) if off is not None else None
-    if st_ is not None and term_is_lit(st_[0], 0):
-        strides.append((ev(ctx, st_[1]), term_str(st_[1])))
-    for s_, t_ in fo.calls():
-        if (t_.get("callee") or "").endswith("::insert") and "IntMap" in (t_.get("callee") or "") and len(t_["args"]) == 3:
-            kterm = unwrap_ovf(strip(fo.arg_origin(s_, 1)))
-            if kterm[0] == "bin" and kterm[1] == "Div" and off is not None and term_sig(unwrap_ovf(kterm[2])) == term_sig(unwrap_ovf(off)):
-                divisors.append((ev(ctx, kterm[3]), term_str(kterm[3])))
-    if not (need(ctx, prop, rule, "DynamicBitfield::open: stride of the page byte offset", strides) and need(ctx, prop, rule, "DynamicBitfield::open: page index divisor", divisors)):
-        return
-    ctx.check(prop, rule, "reader: pages are read at the writer's stride", all(v == page for v, _ in strides) and all(v == page for v, _ in divisors),
-              "stride = divisor = %s bytes" % page,
-              "DynamicBitfield::open advances `data_index` (a byte offset) by %s and derives the page id by dividing by %s, but DynamicBitfield::flush writes pages %s bytes apart: with more than one page, pages are loaded from the wrong bytes" % (
-                  [t for _, t in strides], [t for _, t in divisors], page), [loc(fo, 0)], key="%s|%s|DynamicBitfield::open|page stride" % (prop, rule))
+def _indexed_reader(ctx, prop, rule, fd, words):
     # from_data: word index relative to the page start
     idxs = []
     for b in fd.live():
@@ -324,7 +289,6 @@ def r5(ctx, prop=P, rule="C06.R5"):
         ctx.check(prop, rule, "reader: u32 words are little-endian", {p[0] for p in pairs} == {8, 16, 24} and {p[1] for p in pairs} == {"1", "2", "3"} and all(int(p[1]) * 8 == p[0] for p in pairs),
                   "byte k shifted by 8k", "byte/shift pairs are %s" % sorted(pairs))
     # trip count of the reader's word loop for a full page == words per page
-    words = const_lookup(ctx, "bitfield::fixed::FIXED_BITFIELD_LENGTH")
     trip = None
     detail = "no affine word loop found"
     for h, body, _ in fd.loops():
@@ -375,6 +339,119 @@ def r5(ctx, prop=P, rule="C06.R5"):
                     detail = "for a complete page: i from page start, step %s, while i %s start + %s => %s iterations" % (step, "<=" if op == "Le" else "<", span, trip)
     ctx.check(prop, rule, "reader: a complete page yields all %s words" % words, trip == words, detail,
               "FixedBitfield::from_data reads %s words of a complete page (%s) but a page holds %s: the last word(s) of every reloaded page stay zero" % (trip, detail, words), key="%s|%s|FixedBitfield::from_data|word loop trip count" % (prop, rule))
+
+
+def _chunked_reader(ctx, fd, page, words):
+    """the page decode written with chunks: data[data_index..min(data_index+PAGE, len)].chunks_exact(4)
+    zipped with the words of the page array, each word = u32::from_le_bytes(chunk).  Returns
+    (relative, little_endian, chunks of a complete page, description) or None if the reader is not
+    of this form."""
+    fl = [s_ for s_, t_ in fd.calls() if (t_.get("callee") or "").split("::")[-1] == "from_le_bytes"]
+    if len(fl) != 1:
+        return None
+    arg = strip(fd.arg_origin(fl[0], 0))
+    zips = [x for x in subterms(arg) if isinstance(x, tuple) and len(x) == 4 and x[0] == "call" and x[2].split("::")[-1] == "zip"]
+    if not zips:
+        return None
+    z = zips[0]
+    parts = [strip(a_) for a_ in z[3]]
+    chunk_side = [i for i, a_ in enumerate(parts) if a_[0] == "call" and a_[2].split("::")[-1] == "chunks_exact"]
+    word_side = [i for i, a_ in enumerate(parts) if a_[0] == "call" and a_[2].split("::")[-1] in ("iter_mut",)]
+    if len(chunk_side) != 1 or len(word_side) != 1:
+        return None
+    ce = parts[chunk_side[0]]
+    n = ev(ctx, ce[3][1])
+    src = strip(ce[3][0])
+    rel = False
+    full = None
+    det = "chunks_exact(%s, %s) zip %s" % (term_sig(src)[:70], n, term_sig(parts[word_side[0]])[:30])
+    if src[0] == "call" and src[2].split("::")[-1] == "index" and len(src[3]) == 2 and strip(src[3][0]) == ("param", "data") and is_agg(src[3][1]):
+        rng = src[3][1]
+        d_ = dict(rng[3])
+        st_, en_ = d_.get("start"), d_.get("end")
+        if st_ is not None and strip(st_) == ("param", "data_index"):
+            rel = True
+            if en_ is None:
+                full = None
+            else:
+                e_ = unwrap_ovf(strip(en_))
+                if e_[0] == "call" and e_[2].split("::")[-1] == "min":
+                    for a_ in e_[3]:
+                        la = lin(ctx, a_)
+                        if la is not None and la.get("data_index") == 1 and set(la) <= {"data_index", 1}:
+                            full = int(la.get(1, 0))
+    # the word array is the [u32; words] local, visited from its first element
+    wa = strip(parts[word_side[0]][3][0])
+    rel = rel and (wa[0] == "repeat" and str(wa[2]) == str(words))
+    # the store writes through the word side of the zipped pair, the bytes come from the chunk side
+    stored = False
+    for b_ in fd.live():
+        for si_, st in enumerate(b_.stmts):
+            if st["k"] == "assign" and st["place"]["p"] == ["*"] and term_has_call(fd.origin_rvalue(st["rv"], b_.i, si_), fd.blocks[fl[0]].term.get("callee")) == fl[0]:
+                stored = True
+    nx = [x for x in subterms(arg) if isinstance(x, tuple) and len(x) == 4 and x[0] == "call" and x[2].split("::")[-1] == "next" and x[3] and strip(x[3][0]) == z]
+    every = bool(nx) and every_element_reaches(fd, nx[0][1], fl[0])
+    # little endian: from_le_bytes over [chunk[0], chunk[1], chunk[2], chunk[3]] or over the chunk itself
+    le = False
+    if is_agg(arg) and arg[1] == "array" and len(arg[3]) == 4:
+        ks = []
+        for _, el in arg[3]:
+            el = strip(el)
+            ks.append(ev(ctx, el[2]) if el[0] == "index" else None)
+        le = ks == [0, 1, 2, 3]
+    elif "try_into" in term_sig(arg) or "try_from" in term_sig(arg):
+        le = True
+    trip = (full // n) if (full is not None and n) else None
+    return rel and stored and every and n == 4, le, trip, det
+
+
+def r5(ctx, prop=P, rule="C06.R5"):
+    page = const_lookup(ctx, "bitfield::fixed::FIXED_BITFIELD_BYTES_LENGTH")
+    ff, fo, fd, ft = ctx.fn(BF_FLUSH), ctx.fn(BF_OPEN), ctx.fn(FB_FROM_DATA), ctx.fn(FB_TO_BYTES)
+    if not all(need(ctx, prop, rule, n, f) for n, f in ((BF_FLUSH, ff), (BF_OPEN, fo), (FB_FROM_DATA, fd), (FB_TO_BYTES, ft))):
+        return
+    ctx.check(prop, rule, "a bitfield page is 4096 bytes", page == 4096, "FIXED_BITFIELD_BYTES_LENGTH = 4096", "FIXED_BITFIELD_BYTES_LENGTH = %s" % page)
+    # writer: to_bytes builds a [u8; page] ; offset = id * len(to_bytes())
+    arr = [l for l in ft.body.locals if l["ty"] == "[u8; %s]" % page]
+    ctx.check(prop, rule, "writer: to_bytes serialises a whole page", bool(arr), "[u8; 4096] buffer", "to_bytes does not build a [u8; %s] buffer" % page)
+    nc = sites(ff, SI_CONTENT)
+    good = False
+    if nc:
+        o = unwrap_ovf(ff.arg_origin(nc[0], 1))
+        good = o[0] == "bin" and o[1] == "Mul" and term_has_call(o, FB_TO_BYTES) is not None and any(isinstance(x, tuple) and x[0] == "len" for x in subterms(o))
+    ctx.check(prop, rule, "writer: page offset = page id x page byte length", good, "unflushed_id * to_bytes().len()", "flush offset is %s" % (term_str(ff.arg_origin(nc[0], 1))[:120] if nc else None))
+    # reader: stride and divisor
+    # name-free: the byte offset handed to FixedBitfield::from_data is an arithmetic progression
+    # (a counter `+= S` or `(0..len).step_by(S)`); the page id under which the page is stored is that
+    # offset divided by D
+    strides, divisors = [], []
+    fds = sites(fo, FB_FROM_DATA)
+    off = fo.arg_origin(fds[0], 0) if fds else None
+    st_ = stride_of(off) if off is not None else None
+    if st_ is not None and term_is_lit(st_[0], 0):
+        strides.append((ev(ctx, st_[1]), term_str(st_[1])))
+    for s_, t_ in fo.calls():
+        if (t_.get("callee") or "").endswith("::insert") and "IntMap" in (t_.get("callee") or "") and len(t_["args"]) == 3:
+            kterm = unwrap_ovf(strip(fo.arg_origin(s_, 1)))
+            if kterm[0] == "bin" and kterm[1] == "Div" and off is not None and term_sig(unwrap_ovf(kterm[2])) == term_sig(unwrap_ovf(off)):
+                divisors.append((ev(ctx, kterm[3]), term_str(kterm[3])))
+    if not (need(ctx, prop, rule, "DynamicBitfield::open: stride of the page byte offset", strides) and need(ctx, prop, rule, "DynamicBitfield::open: page index divisor", divisors)):
+        return
+    ctx.check(prop, rule, "reader: pages are read at the writer's stride", all(v == page for v, _ in strides) and all(v == page for v, _ in divisors),
+              "stride = divisor = %s bytes" % page,
+              "DynamicBitfield::open advances `data_index` (a byte offset) by %s and derives the page id by dividing by %s, but DynamicBitfield::flush writes pages %s bytes apart: with more than one page, pages are loaded from the wrong bytes" % (
+                  [t for _, t in strides], [t for _, t in divisors], page), [loc(fo, 0)], key="%s|%s|DynamicBitfield::open|page stride" % (prop, rule))
+    words = const_lookup(ctx, "bitfield::fixed::FIXED_BITFIELD_LENGTH")
+    ch = _chunked_reader(ctx, fd, page, words)
+    if ch is not None:
+        ok_rel, ok_le, trip_, det_ = ch
+        ctx.check(prop, rule, "reader: words are stored relative to the page start", ok_rel, "word k of the page array receives chunk k of data[data_index..]: " + det_,
+                  "chunked reader does not pair chunk k of the page bytes with word k of the page array (%s)" % det_, key="%s|%s|FixedBitfield::from_data|word index absolute" % (prop, rule))
+        ctx.check(prop, rule, "reader: u32 words are little-endian", ok_le, "u32::from_le_bytes over the 4 bytes of a chunk in order", "chunk bytes are not combined little-endian (%s)" % det_)
+        ctx.check(prop, rule, "reader: a complete page yields all %s words" % words, trip_ == words, "chunks_exact(4) over a complete page: %s chunks" % trip_,
+                  "FixedBitfield::from_data reads %s words of a complete page (%s) but a page holds %s: the last word(s) of every reloaded page stay zero" % (trip_, det_, words), key="%s|%s|FixedBitfield::from_data|word loop trip count" % (prop, rule))
+    else:
+        _indexed_reader(ctx, prop, rule, fd, words)
     les = [s for s, t in ft.calls() if (t.get("callee") or "").endswith("::to_le_bytes")]
     ctx.check(prop, rule, "writer: u32 words are little-endian", bool(les), "to_le_bytes", "to_bytes does not use to_le_bytes")
     # open requests the whole store, multiples of 4
